@@ -127,6 +127,11 @@ impl Space {
         prog_seeds.push(("nest-block".into(), format!("fn main() {{ let x: u8 = {}; }}", nested("{", "}", "1", 11))));
         prog_seeds.push(("nest-array-type".into(), format!("fn main() {{ let x: {} = witness::A; }}", nested("[", "; 1]", "u8", 10))));
         prog_seeds.push(("nest-option-type".into(), format!("fn main() {{ let x: {} = None; }}", nested("Option<", ">", "u8", 10))));
+        // a program whose every token is preceded, on the same line, by multi-byte characters
+        for (n, p) in crate::families::static_family().into_iter().filter(|(n, _)| n.starts_with("P3") || n.starts_with("P1")) {
+            prog_seeds.push((format!("{n}-nonascii-comments"), p.render_with(crate::lang::RenderOpts::default(), crate::lang::Layout::NonAsciiComments)));
+        }
+        prog_seeds.push(("tiny-nonascii".into(), "fn main() { /* ööööö語語🦀 */ let x: u8 = /* öööö */ 255; /* 語語語語 */ assert!(jet::eq_8(x, /* 🦀🦀🦀 */ 255)); }".into()));
         if quick {
             // keep the quick tier small: the kitchen-sink programs, 3 family samples, the 4 smallest examples, the nests
             let mut ex: Vec<(String, String)> = prog_seeds.iter().filter(|s| s.0.ends_with(".simf")).cloned().collect();
@@ -146,7 +151,7 @@ impl Space {
                 "", "_", "__", "0x_", "0b_", "0x", "0b", "1_", "_1", "00", "0x0", "0b2", "0xg", "0", "1", "255", "256", "65535", "65536", "0xff", "0xFF", "0x00ff", "0b1", "0b01", "0b00000001", "true", "false", "True", "None", "Some(1)", "Some(None)",
                 "Left(1)", "Right(1)", "Left(Left(1))", "()", "(1)", "(1,)", "(1, 2)", "(1, 2,)", "((1, 2), 3)", "[]", "[1]", "[1, 2]", "[1, 2,]", "[[1], [2]]", "list![]", "list![1]", "list![1, 2, 3]", "list![1, 2, 3, 4]", "list![list![]]", "0x0102", "0x01_02",
                 "[0x01, 0x02]", "(0x01, 1)", "witness::A", "param::A", "x", "jet::eq_8(1, 1)", "{ 1 }", "match true { true => 1, false => 2, }", "dbg!(1)", "<u8>::into(1)", "unwrap(Some(1))", "1 2", "1)", "(1", "1,", "Some(", "Left(", "é", "嗨", "\u{0}", "1\r\n", "\t1\t", "/* c */ 1", "1 // c",
-                "-1", "+1", "1.0", "1e3", "0x", "0X1", "0B1", "00000000000000000000000000000000000000000000000000000000000000000000000000000001",
+                "-1", "+1", "1.0", "1e3", "0x", "0X1", "0B1", "/* öööö語 */ 256", "/* 🦀🦀 */ (1, /* öööö */ 256)", "[/* 語語語語語 */ 1, true]", "/* ööööööö */", "00000000000000000000000000000000000000000000000000000000000000000000000000000001",
             ]
             .into_iter()
             .map(|s| s.to_string())
@@ -181,7 +186,7 @@ impl Space {
             let mut v: Vec<String> = vec![
                 "", "u8", "u3", "u512", "u0", "u", "bool", "Bool", "()", "(u8)", "(u8,)", "(u8, u8", "u8)", "[u8; 2]", "[u8; ]", "[u8; -1]", "[u8; 2", "[u8 2]", "[; 2]", "[u8; 0x2]", "[u8; 2_0]", "List<u8, 2>", "List<u8, 3>", "List<u8, 1>", "List<u8, 0>", "List<u8>", "List<, 2>", "List<u8, 2",
                 "Option<u8>", "Option<>", "Option<u8, u8>", "Either<u8, u8>", "Either<u8>", "Either<u8, u8, u8>", "Ctx8", "Pubkey", "Fee", "Foo", "u8 u8", "u8,", "é", "嗨", "\u{0}", "u8\r\n", " u8 ", "/* c */ u8", "List<u8, 18446744073709551616>", "[u8; 18446744073709551616]", "[u8; 99999999999999999999999999]",
-                "List<u8, 9223372036854775808>", "[u8; 4294967296]", "[[u8; 65536]; 65536]",
+                "List<u8, 9223372036854775808>", "[u8; 4294967296]", "[[u8; 65536]; 65536]", "/* öööö語 */ u3", "(u8, /* 🦀🦀🦀 */ u5)", "[/* ööööööö */ u8; x]",
             ]
             .into_iter()
             .map(|s| s.to_string())
